@@ -46,6 +46,8 @@ impl<I: Iterator> Iterator for Lying<I> {
 }
 
 const HINTS: [usize; 8] = [0, 1, 4095, 4096, 4097, 1 << 32, usize::MAX, usize::MAX / 2];
+/// claims above the cap that an allocator could still satisfy, and claims around 2^63
+const HINTS2: [usize; 8] = [5000, 8192, 50_000, 100_000, 1 << 20, (1 << 63) + 1, usize::MAX - 1, 1 << 63];
 
 fn contents_map(m: &SMap) -> Vec<(u32, u64)> {
     let mut v: Vec<(u32, u64)> = m.iter().map(|(k, v)| (k.id(), v.get())).collect();
@@ -87,6 +89,7 @@ pub fn run_inner(case: &Case, out: &mut Outcome) -> Result<(), Bad> {
         9 => Some(1),
         10 => Some(0),
         11 => Some(entries.len() + 1),
+        n if n >= 12 => Some(HINTS2[(n - 12) % HINTS2.len()]),
         n => Some(HINTS[n % HINTS.len()]),
     };
     // element types other than the tracked pair: zero-sized, one byte, wide, bool, strings
